@@ -257,8 +257,10 @@ func handleConn(conn net.Conn, conf *Config) error {
 
 	log.Print("reading frames")
 
-	frameLogIntervalFirstMin *= headerInfo.FPS()
-	frameLogInterval *= headerInfo.FPS()
+	// per connection: scaling the package-level values in place compounded over reconnects (and reached zero,
+	// a division by zero below, for cameras with an even frame rate)
+	frameLogIntervalFirstMin := frameLogIntervalFirstMin * headerInfo.FPS()
+	frameLogInterval := frameLogInterval * headerInfo.FPS()
 	rawFrame := make([]byte, headerInfo.FrameSize())
 	for {
 		_, err := io.ReadFull(reader, rawFrame[:5])
